@@ -110,6 +110,67 @@ class SetupAccessory:
         return [(T_STATE, b"\x06"), (T_ENC, ct)]
 
 
+class SetupService:
+    """The pair-setup endpoint of a conformant accessory as one little state machine (HAP R2 5.6): M1 starts a fresh SRP
+    exchange (new salt and secret every time), a failed M3 or any out-of-order message ends it, a lost link ends it.
+    Keeps a log of what it was asked and what it decided, for oracles."""
+
+    def __init__(self, ident: Identity, code: str, seed):
+        self.ident, self.code, self.seed = ident, code, seed
+        self.setups = []  # every exchange ever started
+        self.cur = None  # the live exchange, if any
+        self.stage = 0  # last request state accepted in the live exchange (1 = M2 sent, 3 = M4 proof sent)
+        self.controllers = {}
+        self.log = []  # (request state, verdict)
+
+    def reset(self):
+        self.cur, self.stage = None, 0
+
+    def handle(self, body: bytes):
+        err = lambda st, e=b"\x02": [(T_STATE, bytes([st])), (T_ERROR, e)]  # noqa: E731
+        try:
+            req = dict(tlv8.decode(body))
+        except tlv8.Malformed:
+            self.log.append((None, "malformed"))
+            self.reset()
+            return err(2, b"\x01")
+        st = req.get(T_STATE)
+        if st == b"\x01":
+            n = len(self.setups)
+            self.cur = SetupAccessory(self.ident, self.code, C.det_bytes(self.seed, f"salt|{n}", 16), int.from_bytes(C.det_bytes(self.seed, f"srp-b|{n}", 32), "big"))
+            self.setups.append(self.cur)
+            self.stage = 1
+            self.log.append((1, "started"))
+            return self.cur.m2()
+        if st == b"\x03":
+            if self.cur is None or self.stage != 1:
+                self.log.append((3, "no-live-exchange"))
+                self.reset()
+                return err(4, b"\x01")
+            items = self.cur.handle_m3(req)
+            self.log.append((3, "accepted" if self.cur.m3_ok else "rejected"))
+            if self.cur.m3_ok:
+                self.stage = 3
+            else:
+                self.reset()
+            return items
+        if st == b"\x05":
+            if self.cur is None or self.stage != 3:
+                self.log.append((5, "no-live-exchange"))
+                self.reset()
+                return err(6, b"\x01")
+            cur = self.cur
+            items = cur.handle_m5(req)
+            self.log.append((5, "accepted" if cur.m5_ok else "rejected"))
+            if cur.m5_ok:
+                self.controllers[bytes(cur.controller[0])] = bytes(cur.controller[1])
+            self.reset()
+            return items
+        self.log.append((st, "unknown-state"))
+        self.reset()
+        return err(2, b"\x01")
+
+
 # --------------------------------------------------------------------------- pair verify
 def pv_shared(acc_eph_seed32: bytes, ios_pub: bytes):
     eph = C.x_priv(acc_eph_seed32)
